@@ -11,6 +11,7 @@ import ExecModel.Key
 import ExecModel.Props.C20
 import ExecModel.Lts.Cache
 import ExecModel.Lts.FileExec
+import ExecModel.Config
 import ExecModel.Proofs.SysLiveDefs
 /-!
   `modeld` — line protocol driver: one JSON object per line in, one JSON value per line out.
@@ -563,9 +564,61 @@ def fileOps (op : String) (j : Json) : Except String (Option Json) := do
     pure (some (← go [] [] sessions))
   | _ => pure none
 
+/-! ### Config: constructor / submit decision table -/
+
+def parseCfgRD (j : Json) : Except String Config.RD := do
+  let optNat (k : String) : Except String (Option Nat) := match j.getObjVal? k with
+    | .ok v => do pure (some (← v.getNat?))
+    | .error _ => pure none
+  let cwd : Config.Cwd := match j.getObjVal? "cwd" with
+    | .ok (Json.str "none") => .none | .ok (Json.str "ok") => .ok | .ok (Json.str "missing") => .missing | _ => .absent
+  let extra : Config.Extra := match j.getObjVal? "slurm_cmd_args" with
+    | .ok (Json.str "empty") => .empty | .ok (Json.str "nonempty") => .nonempty | _ => .absent
+  let oversub : Option Bool := match j.getObjVal? "openmpi_oversubscribe" with
+    | .ok (Json.bool b) => some b | _ => none
+  pure { cores := ← optNat "cores", threads := ← optNat "threads_per_core", gpus := ← optNat "gpus_per_core", cwd := cwd,
+         oversub := oversub, extra := extra, unknown := (j.getObjValAs? Bool "unknown_key").toOption.getD false }
+
+def configOps (op : String) (j : Json) : Except String (Option Json) := do
+  match op with
+  | "config_decide" =>
+    let b (k : String) : Bool := (j.getObjValAs? Bool k).toOption.getD false
+    let backend : Config.Backend := match (j.getObjValAs? String "backend").toOption.getD "local" with
+      | "local" => .local | "slurm_allocation" => .slurmAlloc | "flux_allocation" => .fluxAlloc
+      | "local_submission" => .localSub | "slurm_submission" => .slurmSub | "flux_submission" => .fluxSub | _ => .other
+    let rd ← (match j.getObjVal? "rd" with | .ok v => parseCfgRD v | .error _ => pure {})
+    let pc ← (match j.getObjVal? "percall" with | .ok v => parseCfgRD v | .error _ => pure {})
+    let o : Config.Opts := {
+      backend := backend, block := b "block_allocation", noDeps := b "disable_dependencies",
+      maxWorkers := (← getOptNat j "max_workers"), maxCores := (← getOptNat j "max_cores"), rd := rd,
+      initFn := b "init_function",
+      hostLocal := (match j.getObjVal? "hostname_localhost" with | .ok (Json.bool x) => some x | _ => none),
+      refresh := (match (j.getObjValAs? String "refresh_rate").toOption.getD "default" with
+        | "other" => .other | "negative" => .negative | _ => .dflt),
+      fluxExec := b "flux_executor",
+      pmi := (match (j.getObjValAs? String "pmi").toOption with | some "pmix" => .pmix | some "bad" => .bad | _ => .none),
+      nesting := b "nesting", pysqaDir := b "pysqa_config_directory", plot := b "plot", cacheDir := b "cache_directory" }
+    let env : Config.Env := { flux := b "env_flux", pysqa := b "env_pysqa", mpi := (j.getObjValAs? Bool "env_mpi").toOption.getD true,
+                              ncpu := (j.getObjValAs? Nat "env_ncpu").toOption.getD 16 }
+    let jExc : Config.Exc → Json
+      | .valueError => "ValueError" | .typeError => "TypeError" | .nameError => "NameError"
+    match Config.construct env o with
+    | .error e => pure (some (Json.mkObj [("construct", jExc e)]))
+    | .ok p =>
+      match Config.submitCheck p pc (b "fn_has_resource_dict_param") with
+      | .error e => pure (some (Json.mkObj [("construct", Json.null), ("submit", jExc e)]))
+      | .ok () =>
+        pure (some (Json.mkObj [("construct", Json.null), ("submit", Json.null),
+          ("runnable", Json.bool (Config.Runnable env p pc)),
+          ("region", match Config.regionOf env p pc with
+            | none => Json.null
+            | some r => Json.str (reprStr r)),
+          ("kind", Json.str (reprStr p.kind)), ("plot", Json.bool (p.resolver && p.plot))]))
+  | _ => pure none
+
 end H
 
-def handlers : List (String → Json → Except String (Option Json)) := [H.cmdOps, H.presetOps, H.wireOps, H.sysOps, H.argsOps, H.resOps, H.keyOps, H.plotOps, H.fileOps]
+def handlers : List (String → Json → Except String (Option Json)) := [H.cmdOps, H.presetOps, H.wireOps, H.sysOps, H.argsOps, H.resOps, H.keyOps, H.plotOps, H.fileOps, H.configOps]
 
 def handle (line : String) : Json :=
   match Json.parse line with
